@@ -136,3 +136,40 @@ def generate_dates(work, V):
             {'module': 'GenerateDates', 'cfg': 'MC_GenerateDates_timeofday.cfg', 'distinct_states': tod['distinct'], 'violation': tod['violation'], 'expected_violation': 'MeetsContract'},
             {'module': 'GenerateDates', 'cfg': 'MC_GenerateDates_2096.cfg', 'distinct_states': y96['distinct'], 'violation': y96['violation'], 'expected_violation': 'MeetsContract'},
             {'module': 'GenerateDates', 'cfg': 'MC_GenerateDates_bind.cfg', 'distinct_states': b['distinct'], 'inputs_replayed_into_code': len(cases), 'drift': drift}]
+
+
+def rel_period(work, V):
+    """RelPeriodMech.tla: the week / month / year branches of _parse_one_word_period meet the contract of RelDate for
+    every reference day of five years; the pre-fix month shift must fail; the weekend branch (outside C08) fails
+    WeekendIsoYear (calendar year instead of the ISO week-year in the TIMEX).  Every (day, shift, unit) of two years is
+    replayed into recognize_datetime ("this|next|last week|weekend|month|year") and compared with the model's result."""
+    import datetime
+    ok = tlc.run(work, 'RelPeriodMech', cfg='MC_RelPeriod.cfg', timeout=900)
+    old = tlc.run(work, 'RelPeriodMech', cfg='MC_RelPeriod_prefix.cfg', timeout=600)
+    we = tlc.run(work, 'RelPeriodMech', cfg='MC_RelPeriod_weekend.cfg', timeout=600)
+    b = tlc.run(work, 'RelPeriodMech', cfg='MC_RelPeriod_bind.cfg', dump=True, timeout=900)
+    if not ok['ok']:
+        V.note('mechanism-drift: RelPeriodMech violates %s' % ok['violation'])
+    word = {-1: 'last', 0: 'this', 1: 'next'}
+    iso = lambda n: datetime.date.fromordinal(n).isoformat()
+    cases, want = [], []
+    for st in tlc.read_dump(b['dump'], where='pc = "done"'):
+        cases.append({'api': 'datetime', 'text': '%s %s' % (word[st['swift']], st['unit']), 'culture': 'en-us',
+                      'ref': iso(st['n']) + 'T00:00:00'})
+        want.append({'timex': st['res']['timex'], 'start': iso(st['res']['start']), 'end': iso(st['res']['end'])})
+    obs = pool.run_cases(cases, init_name='datetime', batch=200, timeout=20.0)
+    drift = 0
+    for c, w, o in zip(cases, want, obs):
+        got = None
+        ents = o.get('ents') or []
+        if len(ents) == 1 and len(ents[0]['res'].get('values', [])) == 1:
+            v = ents[0]['res']['values'][0]
+            got = {'timex': v.get('timex'), 'start': v.get('start'), 'end': v.get('end')}
+        if got != w:
+            drift += 1
+            if drift <= 2:
+                V.note('mechanism-drift: "%s" at %s: model %s, code %s' % (c['text'], c['ref'], w, got if got else o))
+    return [{'module': 'RelPeriodMech', 'cfg': 'MC_RelPeriod.cfg', 'distinct_states': ok['distinct'], 'violation': ok['violation']},
+            {'module': 'RelPeriodMech', 'cfg': 'MC_RelPeriod_prefix.cfg (month shifted from the reference day, before the fix)', 'distinct_states': old['distinct'], 'violation': old['violation'], 'expected_violation': 'MeetsContract'},
+            {'module': 'RelPeriodMech', 'cfg': 'MC_RelPeriod_weekend.cfg (outside C08: weekend TIMEX year)', 'distinct_states': we['distinct'], 'violation': we['violation'], 'expected_violation': 'WeekendIsoYear'},
+            {'module': 'RelPeriodMech', 'cfg': 'MC_RelPeriod_bind.cfg', 'distinct_states': b['distinct'], 'inputs_replayed_into_code': len(cases), 'drift': drift}]
